@@ -1,6 +1,7 @@
 package gov
 
 import (
+	"os"
 	"fmt"
 	"go/token"
 	"go/types"
@@ -88,7 +89,7 @@ func (e *Engine) NewRun(fn *ssa.Function, c *Contract) *FnRun {
 		Trusted: map[string]bool{}, Notes: map[string]bool{}, Inlined: map[string]bool{}, addrTable: map[string]*Loc{},
 		closures: map[string]*closureInfo{}, funcRefs: map[string]*ssa.Function{}, factsDone: map[string]bool{}, nameCount: map[string]int{},
 		globalsChecked: map[string]bool{}, snaps: map[string]*State{}, constCells: map[string]Term{}, trackTypes: map[string]types.Type{}, UsedContracts: map[string]bool{}, SpecFuns: map[string]bool{}, lockTouched: map[string]bool{}}
-	r.Heap.noQuantBase = c != nil && !contractNeedsQuantifiedHeapFacts(e, c)
+	r.Heap.noQuantBase = c != nil && !contractNeedsQuantifiedHeapFacts(e, c) && os.Getenv("GOV_QUANTBASE") == ""
 	return r
 }
 
@@ -528,7 +529,7 @@ func (fr *Frame) execBlockFrom(b *ssa.BasicBlock, ci *cfgInfo, start int) {
 		}
 		switch in := in.(type) {
 		case *ssa.RunDefers:
-			if !fr.resuming && len(fr.defers) > 0 {
+			if !fr.resuming && len(fr.defers) > 0 && os.Getenv("GOV_NODEFERMERGE") == "" {
 				fr.suspended = append(fr.suspended, suspRec{b, i, fr.cur, fr.st})
 				return
 			}
